@@ -120,7 +120,7 @@ class C10Rotating(Scenario):
 SPEC = PropSpec(
     prop="C10",
     scenarios=[(1, C10Rotating)],
-    runs={"quick": 8000, "thorough": 300000},
+    runs={"quick": 30000, "thorough": 700000},
     rule=("THIN (hash seam only; restarts excluded because the statement excludes them).  one run = a "
           "RotatingBloomFilter with est_elements 1..5, max_queue_size 1..4, <=70 steps of add (new/duplicate/forced), "
           "push and pop (incl. pop on a single-filter queue, which must be refused and change nothing); after every step "
